@@ -225,3 +225,43 @@ def dep_less(a, b):
     if la != lb:
         return la < lb
     return na > nb
+
+
+# ----------------------------------------------------------------------------- which variant does the tree have?
+PROBE_STALE = [[0, NPM, b"a", CONCRETE, b"1.0.0", [[V_TAGS, b"x"]], []],
+               [0, NPM, b"a", CONCRETE, b"1.0.0", [[V_TAGS, b"y"]], []],
+               [1, NPM, b"a", CONCRETE, b"1.0.0"]]
+PROBE_RESORT = [[0, NPM, b"a", CONCRETE, b"1.0.0", [[V_TAGS, b"latest"]], []],
+                [0, NPM, b"a", CONCRETE, b"2.0.0", [], []],
+                [0, NPM, b"a", CONCRETE, b"1.0.0", [], []],
+                [2, NPM, b"a"]]
+VARIANT_NAMES = (["AddVersion stores the old value back on a repeated key (F-C14-1)",
+                  "AddVersion assigns the new value, no re-sort", "AddVersion assigns the new value and re-sorts"],
+                 ["latest found by substring (F-C12-2)", "latest found among the comma separated tags"],
+                 ["matchRequirement keeps input order (F-C12-1b)", "matchRequirement sorts a copy"],
+                 ["SortVersions without tie-break (F-C12-1)", "SortVersions breaks ties by spelling"])
+
+
+def detect_variant(ctx):
+    """The model follows the tree: the variant of the code is decided on every run by replaying the
+    recorded witnesses of F-C14-1, F-C12-2, F-C12-1b and F-C12-1 on the Go code.  Returns
+    [add, [latest_exact, match_sorts, tie_break]] as the model decodes it."""
+    o1, o2 = ctx.impl("client_history", [sx([0, [], PROBE_STALE]), sx([0, [], PROBE_RESORT])])
+    r1 = parse_sx(o1)
+    if r1 == [[b"ok", [b"1.0.0", 1, [[V_TAGS, b"x"]]]]]:
+        add = 0
+    else:
+        r2 = parse_sx(o2)
+        add = 1 if (r2 and r2[0][0] == b"ok" and [r[0] for r in r2[0][1]] == [b"2.0.0", b"1.0.0"]) else 2
+    w_latest = [[], NPM, [[b"1.0.0", CONCRETE, [[V_TAGS, b"latest"]]], [b"2.0.0", CONCRETE, [[V_TAGS, b"latest-2"]]]], [0, 1]]
+    w_tie = [[], PYPI, [[b"1.0", CONCRETE, []], [b"1.0.0", CONCRETE, []]], [1, 0]]
+    s1, s2 = ctx.impl("sortv", [sx(w_latest), sx(w_tie)])
+    m1, = ctx.impl("matchreq", [sx([[], MAVEN, b"[0.5,)", [[b"1.0", CONCRETE, []], [b"0.9", CONCRETE, []]], [0, 1]])])
+    latest_exact = int([r[0] for r in parse_sx(s1)] == [b"2.0.0", b"1.0.0"])
+    tie_break = int([r[0] for r in parse_sx(s2)] == [b"1.0", b"1.0.0"])
+    match_sorts = int([r[0] for r in parse_sx(m1)] == [b"0.9", b"1.0"])
+    v = [add, [latest_exact, match_sorts, tie_break]]
+    ctx.notes.append("variant of the tree detected by witness replay: " + "; ".join(
+        [VARIANT_NAMES[0][add], VARIANT_NAMES[1][latest_exact], VARIANT_NAMES[2][match_sorts], VARIANT_NAMES[3][tie_break]]))
+    ctx.extra["variant"] = v
+    return v
